@@ -190,6 +190,7 @@ type Engine struct {
 	NoMerge        bool
 	NoLiveness     bool
 	DebugPaths     bool
+	MissingBody    func(fn *ssa.Function) Intrinsic
 	MaxStack       int
 	StackCuts      int
 	pathsRun       int
@@ -1014,7 +1015,7 @@ func (e *Engine) RunAll() []*Path {
 					nw += len(g)
 				}
 				fmt.Fprintf(os.Stderr, "    paths run=%d work=%d waiting=%d groups=%d done=%d terms=%d merges=%d\n", e.pathsRun, len(e.work), nw, len(e.waiting), len(e.done), e.B.NumTerms(), e.Merges)
-				if os.Getenv("VERIF_DUMPKEYS") != "" && len(e.waiting) > 400 {
+				if os.Getenv("VERIF_DUMPKEYS") != "" && len(e.waiting) > 3 && e.pathsRun > 3000 {
 					n := 0
 					for k := range e.waiting {
 						fmt.Fprintf(os.Stderr, "KEY %s\n\n", k)
@@ -2118,6 +2119,12 @@ func (e *Engine) dispatchCall(p *Path, cc *ssa.CallCommon, fnv Value, args []Val
 			q.Cur.Pan = nil
 			q.Cut = true
 			return
+		}
+		if fn.Blocks == nil && e.MissingBody != nil {
+			if intr := e.MissingBody(fn); intr != nil {
+				intr(e, q, &ICall{Site: site, Call: call, Args: a, IsDefer: isDefer, Fn: fn})
+				return
+			}
 		}
 		nf := e.NewFrame(fn, a, bind)
 		nf.IsDefer = isDefer
